@@ -14,6 +14,11 @@ CLAIMS = {
         text="Decides that TEMPO and PT-TEMPO are wired to the same inputs at the same step indices (S1 influence arguments by origin, S2 propagator/step alignment, S3 role-typed plumbing, S4 dkmax/unique provenance). Numerical agreement of the two contractions is not decided.",
         note="Trusted: Python ast; def-use engine; role vocabulary (oqv/roles.py). Partial claim: wiring only.",
         ref="2/C02"),
+    "C03": dict(
+        technique="sibling cross-check of the leg-role table of all PT-MPO consumers (edge-connection sites classified by role), convention check of superoperator/cap application, guard presence, index-position discipline of the environment list",
+        text="Claims C03 in part: structural necessary conditions - all five consumers of a PT-MPO tensor agree on (past bond, future bond, system in, system out) and on the rank-3 delta expansion (M1), one convention for applying system superoperators and caps (M2), input guards (M3), list position of a process tensor only selects its own bond leg / cap / MPO (M4). Exactness against an independent joint evolution is not decided; an error shared by producer and all consumers is invisible to this cross-check.",
+        note="Trusted: tensornetwork edge-connection semantics; local-name role vocabulary (exit 2 if it no longer matches). Partial claim.",
+        ref="7.2 (C03)"),
     "C04": dict(
         technique="algebraic shape checks: coefficient/operand form of every Lindblad dissipator, Kronecker-factor convention table of the superoperator builders, factor structure of the influence exponent, return-expression form of normalised read-outs",
         text="Claims C04 in part: the clauses that hold by construction - trace-annihilating form of every dissipator construction site (D1), one (A (x) B^T) superoperator convention so that commutators annihilate the trace (D2), normalised read-outs (D3), and the factor structure of the influence exponent that gives trace preservation of the last-leg sum and I(s+,s-)* = I(s-,s+) (D4). Each is a necessary condition of unit trace / Hermiticity. Positivity and the numerical size of deviations after SVD truncation are not decided.",
@@ -103,7 +108,6 @@ CLAIMS = {
 
 NOT_APPLICABLE = {
     "C01": "equality of computed density matrices with an analytic solution quantifies over floating-point results of tensor contractions and quadratures; no sound static abstraction in reach bounds them. Its only shape-visible parts are decided under C12 (L1-L3) and C02 (S1).",
-    "C03": "exactness of a tensor-network contraction against an independent joint evolution; leg wiring can only be cross-checked between consumers, which cannot see the shared-convention errors the property targets.",
 }
 
 
